@@ -27,7 +27,7 @@ func propConfigs() map[string]*PropConfig {
 	add(&PropConfig{ID: "C01", Prefix: "VH_C01_", StrBytes: 8, Sets: []HarnessSet{hfiles("fast", fastLib, "fast/c01_binary_gen.go", "fast/c01_more_gen.go")},
 		Thorough: func(n string) bool { return strings.Contains(n, "_T_") },
 		Explain: "pattern B: the real Comp.BinaryExpr1/UnaryExpr/Symbol.expr compile functions are executed on symbolic operands per (operator, kind, constness shape); the returned closure is run and compared with the native Go operator"})
-	add(&PropConfig{ID: "C02", Prefix: "VH_C02_", StrBytes: 8, Sets: []HarnessSet{hfiles("fast", fastLib, "fast/c01_binary_gen.go", "fast/c02_var_gen.go", "fast/c02_place_gen.go", "fast/c02_setvalue_gen.go", "fast/c02_multi.go")},
+	add(&PropConfig{ID: "C02", Prefix: "VH_C02_", StrBytes: 8, TimeoutMs: 30000, Sets: []HarnessSet{hfiles("fast", fastLib, "fast/c01_binary_gen.go", "fast/c02_var_gen.go", "fast/c02_place_gen.go", "fast/c02_setvalue_gen.go", "fast/c02_multi.go")},
 		Explain: "pattern B: the real Comp.setVar/setPlace compile functions are executed per (operator, kind, storage class, constness, closure depth); the returned statement closure is run on a chain of symbolic frames and the post-state compared with the native Go operator, including frame condition (all other slots unchanged), IP protocol and single evaluation"})
 	add(&PropConfig{ID: "C37", Prefix: "VH_C37_", Sets: []HarnessSet{hfiles("fast", fastLib, "fast/c37.go")},
 		Thorough: func(n string) bool { return strings.Contains(n, "_T_") },
